@@ -150,3 +150,50 @@ pub assume_specification[ char::is_ascii ](c: &char) -> (r: bool)
     ensures
         r == ((*c as u32) <= 0x7f),
 ;
+
+// ---- String / str facts used by Buffer::text (C09) --------------------------------------------
+/// TRUSTED (std): `char::is_whitespace` is the Unicode White_Space property; only two facts about
+/// it are used: U+0020 has it, and so does U+00A0 (which is why `trim_end` is not "trim spaces")
+pub uninterp spec fn is_ws(c: char) -> bool;
+
+#[verifier::external_body]
+pub proof fn axiom_is_ws()
+    ensures
+        is_ws(' '),
+        is_ws('\u{a0}'),
+{}
+
+/// a text without its trailing White_Space characters
+pub open spec fn rtrim_ws(s: Seq<char>) -> Seq<char>
+    decreases s.len(),
+{
+    if s.len() > 0 && is_ws(s.last()) { rtrim_ws(s.drop_last()) } else { s }
+}
+
+/// a text without its trailing occurrences of `c`
+pub open spec fn rtrim_char(s: Seq<char>, c: char) -> Seq<char>
+    decreases s.len(),
+{
+    if s.len() > 0 && s.last() == c { rtrim_char(s.drop_last(), c) } else { s }
+}
+
+pub assume_specification[ str::trim_end ](s: &str) -> (r: &str)
+    ensures
+        r@ == rtrim_ws(s@),
+;
+
+/// a text without its trailing matches of a pattern (uninterpreted; `axiom_rtrim_pat_char` fixes a `char` pattern)
+pub uninterp spec fn rtrim_pat<P>(s: Seq<char>, pat: P) -> Seq<char>;
+
+/// TRUSTED (std): `s.trim_end_matches(c)` for a `char` removes the trailing occurrences of `c`
+#[verifier::external_body]
+pub proof fn axiom_rtrim_pat_char()
+    ensures
+        forall|s: Seq<char>, c: char| #[trigger] rtrim_pat::<char>(s, c) == rtrim_char(s, c),
+{}
+
+pub assume_specification<P: core::str::pattern::Pattern>[ str::trim_end_matches::<P> ](s: &str, pat: P) -> (r: &str)
+    where for<'a> P::Searcher<'a>: core::str::pattern::ReverseSearcher<'a>,
+    ensures
+        r@ == rtrim_pat::<P>(s@, pat),
+;
